@@ -20,6 +20,8 @@ def check(ctx):
     ctx.guard(r016_features, ctx, "R01.6")
     ctx.guard(r013_grouping, ctx)
     ctx.guard(r014_plumbing, ctx)
+    from .c02 import r024_extract
+    ctx.guard(r024_extract, ctx, "R01.4")
 
 
 def r011_frame(ctx, rule):
